@@ -63,6 +63,18 @@ CHECKS = {
          "Texts are generated from values in every documented literal form, layout and letter case; valid texts must parse to exactly the generating model (printed form, encoded bytes, variables), texts with one unrepresentable literal (each boundary +-1, 1e20, 1e400, fractions, wrong token kinds, malformed numbers, non-ASCII) in every position of arrays of length 0..8 must give an error and no message; undocumented forms may be rejected or read plausibly, never as a third value.",
          "Expected values come from the generator (value -> text), never from parsing; which forms are 'documented' is stated in DESIGN.md.",
          "DESIGN.md §5 C05"),
+ "C08": ("exploration", "metamorphic layout monitor: one token sequence rendered twice, diagnostics matched through the renderer's token position table",
+         "Valid messages, single-mutation variants and token soups are rendered in two layouts (all blank kinds, CRLF, comments with 45 bodies covering every kind of final byte, with/without final line break) or two letter-case spellings; messages must be identical, diagnostics equal in number and text, and every diagnostic position must be the position of the same token in the other rendering.",
+         "Admissibility (which gaps are optional, when a comment may contain a quote, which tokens may change lexer state) is decided by the harness's own rules stated in c08.go/smltext.go.",
+         "DESIGN.md §5 C08"),
+ "C15": ("exploration", "exhaustive small-number enumeration of (form, type, lower, upper, count) with position-checked diagnostics",
+         "All four declaration forms x 14 item types x (lower, upper, count) in [0..6]^3 plus huge/overflowing and inverted bounds: accepted iff the count is within the bounds, else an error at the declaration token and no message; ASCII-variable bounds are printed back, survive re-parsing and are enforced on fills at lo-1, lo, hi, hi+1, 0, 1000.",
+         "Exhaustive only for bounds up to 6; larger bounds by a table of boundary values.",
+         "DESIGN.md §5 C15"),
+ "C19": ("exploration", "metamorphic concatenation monitor against the individual parses",
+         "Sequences of 2-4 accepted texts with every separator allowed after a terminator: the concatenation must be accepted, return the concatenation of the individual results (all observers, variable names verbatim) and the individual warnings shifted by each part's start position; variable names and ellipses are deliberately reused across parts.",
+         "Parts never end in an unterminated comment.",
+         "DESIGN.md §5 C19"),
 }
 
 NOT_YET = {}
